@@ -3,11 +3,14 @@ package main
 import (
 	"errors"
 	"fmt"
+	"regexp"
 	"sort"
+	"strconv"
 	"strings"
 	"time"
 
 	"github.com/zeromicro/go-zero/core/collection"
+	"github.com/zeromicro/go-zero/core/logx"
 	"github.com/zeromicro/go-zero/verifshim/vsched"
 )
 
@@ -55,18 +58,55 @@ func bracket(d time.Duration) (lo, hi int) {
 	return
 }
 
+// unlimitedKeys: a cache built WITHOUT WithLimit must never evict. Besides the 2-key searches
+// (cache/limit=0/jit=…) it is driven, one level less deep, with more keys than the largest limit
+// of the limited configurations (3), so that a hidden cap of 1..3 entries shows up as
+// cache-entry-lost (job cache/limit=0/jit=hi/keys=4).
+const unlimitedKeys = 4
+
+// Statistics variant ("…/stat"): the cache is built with WithName(statName) and the history starts
+// statPrologue virtual seconds after construction, so that the 1-minute statistics ticker (which
+// logs the cache's name and Cache.size()) fires inside the explored histories: Advance(1) does
+// not reach it, Advance(2) lands exactly on it (together with the wheel's 60th tick), Advance(5)
+// goes past it.
+const (
+	statName     = "c16-named"
+	statPrologue = 58
+	statPeriod   = 60
+)
+
 func cacheJob(name string, limit int, jit string, thorough bool) *job {
+	stat := strings.HasSuffix(name, "/stat")
 	nkeys := limit + 1
 	if nkeys < 2 {
 		nkeys = 2
+	}
+	manyKeys := param(name, "keys") != ""
+	if manyKeys {
+		nkeys = atoi(param(name, "keys"))
 	}
 	depth := map[int]int{0: 6, 1: 6, 2: 5, 3: 5}[limit]
 	if thorough {
 		depth = map[int]int{0: 7, 1: 7, 2: 6, 3: 6}[limit]
 	}
+	if stat {
+		depth = 4
+		if thorough {
+			depth = 5
+		}
+	}
+	if manyKeys {
+		depth = 5
+		if thorough {
+			depth = 6
+		}
+	}
 	advs := []int64{1, 2, 5}
 	j := &job{name: name, pbfs: true, depth: depth, nontriv: hasMutation("set", "swe", "take")}
-	j.rule = fmt.Sprintf("Cache limit=%d (0 = none), %d keys, default expire 3s, SetWithExpire 6s, jitter %s; alphabet Set SetWithExpire Get Del Take(ok loader) Take(failing loader) Advance%v ticks", limit, nkeys, jit, advs)
+	j.rule = fmt.Sprintf("Cache limit=%d (0 = built without WithLimit), %d keys, default expire 3s, SetWithExpire 6s, jitter %s; alphabet Set SetWithExpire Get Del Take(ok loader) Take(failing loader) Advance%v ticks", limit, nkeys, jit, advs)
+	if stat {
+		j.rule += fmt.Sprintf("; built with WithName(%q), history starts %d s after construction, every line of the 1-minute statistics log is judged (name, elements = Cache.size())", statName, statPrologue)
+	}
 	j.alpha = func(d int, path []Op) []Op {
 		used := 0
 		for _, o := range path {
@@ -85,12 +125,40 @@ func cacheJob(name string, limit int, jit string, thorough bool) *job {
 		}
 		return out
 	}
-	j.run = func(path []Op, verbose bool) result { return cacheRun(limit, nkeys, jit, path, verbose) }
+	j.run = func(path []Op, verbose bool) result { return cacheRun(limit, nkeys, jit, stat, path, verbose) }
 	return j
 }
 
-func cacheRun(limit, nkeys int, jit string, path []Op, verbose bool) result {
+// statWriter is a logx.Writer that keeps the statistics lines and drops everything else.
+type statWriter struct{ lines []string }
+
+func (s *statWriter) Alert(any)                   {}
+func (s *statWriter) Close() error                { return nil }
+func (s *statWriter) Debug(any, ...logx.LogField) {}
+func (s *statWriter) Error(any, ...logx.LogField) {}
+func (s *statWriter) Info(any, ...logx.LogField)  {}
+func (s *statWriter) Severe(any)                  {}
+func (s *statWriter) Slow(any, ...logx.LogField)  {}
+func (s *statWriter) Stack(any)                   {}
+func (s *statWriter) Stat(v any, _ ...logx.LogField) {
+	s.lines = append(s.lines, fmt.Sprint(v))
+}
+
+var (
+	statNameRe = regexp.MustCompile(`cache\(([^)]*)\)`)
+	statElemRe = regexp.MustCompile(`elements: (-?\d+)`)
+)
+
+func cacheRun(limit, nkeys int, jit string, stat bool, path []Op, verbose bool) result {
 	var res result
+	var sw *statWriter
+	if stat {
+		// the harness runs with logx disabled; this variant needs the statistics lines
+		sw = &statWriter{}
+		logx.SetLevel(logx.InfoLevel)
+		logx.SetWriter(sw)
+		defer logx.Disable()
+	}
 	calls := 0
 	vsched.FloatHook = func() (float64, bool) {
 		calls++
@@ -113,12 +181,25 @@ func cacheRun(limit, nkeys int, jit string, path []Op, verbose bool) result {
 		if limit > 0 {
 			opts = append(opts, collection.WithLimit(limit))
 		}
+		if stat {
+			opts = append(opts, collection.WithName(statName))
+		}
 		c, err := collection.NewCache(cacheDefault, opts...)
 		if err != nil {
 			res.err, res.class = "NewCache: "+err.Error(), "cache-constructor"
 			return
 		}
 		vsched.Quiesce()
+		abs := 0     // whole seconds since construction (statistics variant: phase of the 1-minute ticker)
+		act := false // a Get / successful Take happened since the last statistics tick
+		if stat {
+			vsched.Advance(statPrologue * time.Second)
+			abs = statPrologue
+			if len(sw.lines) != 0 {
+				res.err, res.class = fmt.Sprintf("statistics line %q logged by a cache that was never used", sw.lines[0]), "cache-stat-line-unexpected"
+				return
+			}
+		}
 		ref := map[string]*centry{}
 		var lru []string // most recent first
 		nset := map[string]int{}
@@ -264,6 +345,43 @@ func cacheRun(limit, nkeys int, jit string, path []Op, verbose bool) result {
 			}
 			return true
 		}
+		// judgeStat judges the statistics lines logged during the last tick: the name must be the
+		// configured one and "elements" (= Cache.size()) must lie between the reference's number of
+		// entries after and before that tick (entries may expire in the same instant the
+		// statistics ticker fires; the order of the two tickers is not specified).
+		judgeStat := func(step string, from, before int) bool {
+			for _, ln := range sw.lines[from:] {
+				if verbose {
+					fmt.Printf("      statistics line: %q (reference: %d entries before, %d after this tick)\n", ln, before, len(ref))
+				}
+				nm, el := statNameRe.FindStringSubmatch(ln), statElemRe.FindStringSubmatch(ln)
+				if nm == nil || el == nil {
+					ev["stat-line-unparsed"] = true // format changed: nothing to judge
+					continue
+				}
+				if nm[1] != statName {
+					fail("stat-name-wrong", fmt.Sprintf("%s: statistics line %q names the cache %q, it was built with WithName(%q)", step, ln, nm[1], statName))
+					return false
+				}
+				n, _ := strconv.Atoi(el[1])
+				after := len(ref)
+				if n < after || n > before {
+					fail("stat-elements-wrong", fmt.Sprintf("%s: statistics line %q reports %d elements, the reference holds %d before and %d after this tick: %v", step, ln, n, before, after, refStr(ref, tick)))
+					return false
+				}
+				ev["stat-line-judged"] = true
+				if n > 0 {
+					ev["stat-line-judged-nonempty"] = true
+				}
+				if before != after {
+					ev["stat-line-judged-at-expiry"] = true
+				}
+				if limit > 0 && n == limit {
+					ev["stat-line-judged-full"] = true
+				}
+			}
+			return true
+		}
 		for i, op := range path {
 			step := fmt.Sprintf("step %d %v", i, op)
 			k := keyName(op.I)
@@ -281,6 +399,7 @@ func cacheRun(limit, nkeys int, jit string, path []Op, verbose bool) result {
 				}
 				evicted = modelSet(k, v, d)
 			case "get":
+				act = true
 				if !checkGet(step, k) {
 					return
 				}
@@ -306,6 +425,9 @@ func cacheRun(limit, nkeys int, jit string, path []Op, verbose bool) result {
 					fail(map[bool]string{true: "loader-called-on-hit", false: "loader-not-called-on-miss"}[e != nil],
 						fmt.Sprintf("%s: loader called %d times, reference says %d (entry %v)", step, loads, wantLoads, refStr(ref, tick)))
 					return
+				}
+				if op.K == "take" || e != nil {
+					act = true
 				}
 				switch {
 				case e != nil:
@@ -333,8 +455,26 @@ func cacheRun(limit, nkeys int, jit string, path []Op, verbose bool) result {
 					evicted = modelSet(k, nv, cacheDefault)
 				}
 			case "adv":
-				vsched.Advance(time.Duration(op.N) * time.Second)
-				tick += int(op.N)
+				if !stat {
+					vsched.Advance(time.Duration(op.N) * time.Second)
+					tick += int(op.N)
+					break
+				}
+				// statistics variant: tick by tick, so that a statistics line can be judged against
+				// the reference right before / after the tick it was logged in
+				for n := int64(0); n < op.N; n++ {
+					before, from := len(ref), len(sw.lines)
+					vsched.Advance(time.Second)
+					tick++
+					abs++
+					vsched.Quiesce()
+					if !sync(step, "") || !judgeStat(step, from, before) {
+						return
+					}
+					if abs%statPeriod == 0 {
+						act = false
+					}
+				}
 			}
 			vsched.Quiesce()
 			if !sync(step, evicted) {
@@ -348,6 +488,11 @@ func cacheRun(limit, nkeys int, jit string, path []Op, verbose bool) result {
 		}
 		view := collection.VerifC16Cache(c)
 		res.key = view.Dump + "#" + refStr(ref, tick) + "#" + strings.Join(lru, ",")
+		if stat {
+			// the phase of the statistics ticker and whether it has something to report decide what
+			// the future logs: part of the state in this variant
+			res.key += fmt.Sprintf("#stat@%d/%v", abs%statPeriod, act)
+		}
 		// observation (on this throw-away instance): Get of every key
 		for i := 1; i <= nkeys; i++ {
 			if !checkGet("final observation", keyName(i)) {
